@@ -140,7 +140,7 @@ def build_cases(tier):
     if tier == "quick":
         nrand, nobj = 500, 150
     else:
-        nrand, nobj = 3000, 600
+        nrand, nobj = 5000, 1000
     rand = G.random_cases(s * 7919 + 5, nrand, depths=(2, 3, 3, 4) if tier == "quick" else (2, 3, 3, 4, 4, 5))
     objs = G.object_cases(s * 104729 + 11, nobj)
     seen, out = set(), []
